@@ -7,3 +7,5 @@ func removeAll(p string) {
 		_ = os.RemoveAll(p)
 	}
 }
+
+func quiesce() { vrtQuiesce() }
